@@ -204,7 +204,8 @@ def design_expect_violation(ctx, module, cfg, invariant, finding, timeout=900, w
     must violate `invariant` (TLC's counterexample is the finding at the design level).  If TLC passes, the
     specification no longer explains the finding: exit 2 (the spec or the findings file is out of date)."""
     r = tlc(ctx, module, cfg, timeout=timeout, workers=workers, consts=consts, name=name)
-    if r["ok"] or (("Invariant %s is violated" % invariant) not in r["out"] and ("Action property %s is violated" % invariant) not in r["out"]):
+    if r["ok"] or (("Invariant %s is violated" % invariant) not in r["out"] and ("Action property %s is violated" % invariant) not in r["out"]
+                   and ("Temporal property %s was violated" % invariant) not in r["out"]):
         tail = "\n".join(r["out"].splitlines()[-25:])
         raise Inconclusive("design config %s/%s was expected to violate %s (known finding %s) but did not:\n%s"
                            % (module, cfg, invariant, finding, tail))
